@@ -653,7 +653,12 @@ class Builder:
 			consts_in_body = main.style == 'nem' and self.chance(1, 2)
 			consts = self.child_consts(main, enum_value, version)
 			use_template = (len(families) > 1 or self.chance(1, 4 if self.small else 2)) and (body or consts_in_body)
-			base = self.type_name()
+			while True:
+				# the first child's name is the base plus the version suffix: it has to be as fresh as every other type name
+				base = self.type_name()
+				if base + f'V{version}' not in self.used_types:
+					self.used_types.add(base + f'V{version}')
+					break
 			if use_template:
 				template = self.type_name('Body')
 				self.emit(self.struct_text(template, (consts if consts_in_body else []) + body, modifier='inline'))
